@@ -268,8 +268,14 @@ func runRound(r *round, c *corpus, shared *world) roundOutcome {
 	var out roundOutcome
 	for t := 0; t < g; t++ {
 		// independent reference (AC-3 channel tables): in the sequential or in the concurrent run
-		for _, rs := range [][]opResult{refs[t].res, got[t].res} {
+		for which, rs := range [][]opResult{refs[t].res, got[t].res} {
 			for i, x := range rs {
+				// consistency oracles between two reads of the same bytes only count in the sequential run on private
+				// copies: in the concurrent run of a recorded-scenario round another goroutine may be rewriting the input
+				// (that shows up as result-differs)
+				if which == 1 && strings.HasPrefix(x.bad, "seq-only:") {
+					continue
+				}
 				if x.bad != "" {
 					out.refdiffs = append(out.refdiffs, fmt.Sprintf("%d:%d:%s", t, i, x.bad))
 					break
